@@ -131,15 +131,39 @@ pub fn run(outdir: &str, seed: u64, thorough: bool) -> serde_json::Value {
                 _ => Expr::or(gen_q(r, tys, depth - 1), gen_q(r, tys, depth - 1)),
             }
         }
-        let ex = gen_q(&mut r, &tys, 2);
+        // one case in six: two nullable numeric columns of different ranges compared with each other
+        let two_nullable = r.chance(1, 6);
+        let (tys, st_ty) = if two_nullable {
+            let a = if r.chance(1, 2) { Ty::Float(vec![(-(r.range(5, 15) as f64), r.range(5, 15) as f64)]) } else { Ty::Int(vec![(r.range(-15, -5), r.range(5, 15))]) };
+            let b = if r.chance(1, 2) { Ty::Int(vec![(r.range(-6, 0), r.range(1, 6))]) } else { Ty::Float(vec![(-(r.range(1, 4) as f64), r.range(1, 4) as f64)]) };
+            let t2 = vec![Ty::Opt(Box::new(a)), Ty::Opt(Box::new(b)), tys[2].clone()];
+            let st2 = DataType::structured(COLS.iter().zip(t2.iter()).map(|(c, t)| (*c, to_dt(t))).collect::<Vec<_>>());
+            (t2, st2) } else { (tys, st_ty) };
+        let ex = if two_nullable { let (l, rr) = if r.chance(1, 2) { (Expr::col("a"), Expr::col("b")) } else { (Expr::col("b"), Expr::col("a")) };
+            let cmp = match r.below(4) { 0 => Expr::gt(l, rr), 1 => Expr::gt_eq(l, rr), 2 => Expr::lt(l, rr), _ => Expr::lt_eq(l, rr) };
+            if r.chance(1, 3) { Expr::and(cmp, gen_q(&mut r, &tys, 1)) } else { cmp } } else { gen_q(&mut r, &tys, 2) };
+        if two_nullable { st.bump("two_nullable_columns_compared"); }
+        let dbg = two_nullable && std::env::var("QV_DEBUG10").is_ok() && st.notes.len() < 6;
         let filtered = match catch_unwind(AssertUnwindSafe(|| st_ty.filter(&ex))) { Ok(f) => f, Err(e) => { st.bump("mixed_filter_panicked"); if st.notes.len() < 8 { st.notes.push(format!("filter panicked on {} with {}: {}", st_ty, ex, panic_msg(e))); } continue; } };
         let mut sat = 0;
-        for _ in 0..8 {
+        for _ in 0..(if two_nullable { 24 } else { 8 }) {
             let vals: Vec<Value> = tys.iter().map(|t| sample(t, &mut r)).collect();
             let row = Value::structured(COLS.iter().zip(vals.iter()).map(|(c, v)| (*c, v.clone())).collect::<Vec<_>>());
             if !st_ty.contains(&row) { continue; }
             let holds = catch_unwind(AssertUnwindSafe(|| ex.value(&row).ok())).unwrap_or(None);
             let is_true = matches!(&holds, Some(Value::Boolean(b)) if **b) || matches!(&holds, Some(Value::Optional(o)) if matches!(o.as_deref(), Some(Value::Boolean(b)) if **b));
+            // two nullable numeric columns compared directly: the truth of the predicate is decided here, on the numbers
+            // (the crate's evaluator gives up on some(int) against some(float))
+            let is_true = if two_nullable && matches!(&ex, Expr::Function(f) if f.arguments().len() == 2 && f.arguments().iter().all(|a| matches!(a, Expr::Column(_)))) {
+                let num = |v: &Value| -> Option<f64> { match v { Value::Optional(o) => match o.as_deref() { Some(Value::Float(x)) => Some(**x), Some(Value::Integer(x)) => Some(**x as f64), _ => None }, Value::Float(x) => Some(**x), Value::Integer(x) => Some(**x as f64), _ => None } };
+                if let (Expr::Function(f), Some(x), Some(y)) = (&ex, num(&vals[0]), num(&vals[1])) {
+                    let a0 = f.arguments(); let first_is_a = matches!(&a0[0], Expr::Column(c) if c.last().map(|n| n == "a").unwrap_or(false));
+                    let (l, rr) = if first_is_a { (x, y) } else { (y, x) };
+                    use qrlew::expr::function::Function as F;
+                    match f.function() { F::Gt => l > rr, F::GtEq => l >= rr, F::Lt => l < rr, F::LtEq => l <= rr, _ => is_true }
+                } else { false }
+            } else { is_true };
+            if dbg { st.notes.push(format!("{} | {} | row {} | holds {:?} | filtered {}", ex, st_ty, row, holds.as_ref().map(|h| h.to_string()), filtered)); }
             if is_true { sat += 1;
                 if !member(&filtered, &row) { st.violation(json!({"kind":"satisfying-row-dropped","class":"mixed-columns","predicate":ex.to_string(),"type":st_ty.to_string(),"narrowed":filtered.to_string(),"row":row.to_string()})); } }
         }
